@@ -221,15 +221,12 @@ Definition finalize_one (s : state) (t : N) : res state :=
       else write_utxos (with_final s (t :: s_final s)) t 0 (t_outs b)
   end.
 
-Fixpoint finalize_all (s : state) (ts : list N) : res state :=
-  match ts with
-  | [] => Ok s
-  | t :: ts' => do s' <- finalize_one s t; finalize_all s' ts'
-  end.
-
-(* WriteSnapshot: debug assertion that every body exists, then the loop *)
-Definition finalize (s : state) (ts : list N) : res state :=
-  if debug_asserts && negb (forallb (has_body s) ts) then Panic else finalize_all s ts.
+(* WriteSnapshot of a snapshot that carries one transaction (a snapshot of
+   round 0 carries exactly one; the loop over several transactions of a later
+   round is not modelled): debug assertion that the body exists, then
+   finalizeTransaction. *)
+Definition finalize (s : state) (t : N) : res state :=
+  if debug_asserts && negb (has_body s t) then Panic else finalize_one s t.
 
 (* ---- the machine ---------------------------------------------------------- *)
 Inductive op :=
@@ -239,7 +236,7 @@ Inductive op :=
 | LockInputs (t : txd) (fork : bool)
 | LockGhost (ks : list N) (tx : N) (fork : bool)
 | WriteTx (t : txd)
-| Finalize (ts : list N).
+| Finalize (t : N).
 
 Definition exec (s : state) (o : op) : res state :=
   match o with
@@ -249,7 +246,7 @@ Definition exec (s : state) (o : op) : res state :=
   | LockInputs t fork => lock_inputs s t fork
   | LockGhost ks tx fork => do g <- lock_ghost_keys (s_ghost s) ks tx fork; Ok (with_ghost s g)
   | WriteTx t => write_tx s t
-  | Finalize ts => finalize s ts
+  | Finalize t => finalize s t
   end.
 
 (* an update that fails commits nothing *)
